@@ -14,12 +14,13 @@
     any satellite and signal identifiers, duplicates, inconsistent sets, any order, up to the containers'
     capacities.  The model marks every arithmetic overflow, out-of-range index, over-wide shift and push beyond
     capacity as Panic, i.e. it is the overflow-checks profile; that the optimised profile agrees is the
-    ENCODE correspondence in the two build profiles.  Not proved: that the frame carries the message's own
-    number for the 53 non-plain layouts (probes). *)
+    ENCODE correspondence in the two build profiles.  [C09_number]: every frame build_message returns, for
+    every message of the table and every builder history, is accepted by MessageFrame::new and carries the
+    message's own number (the body encoder touches no bit before its starting position: Proofs/EncodeFrameAll.v). *)
 From Coq Require Import ZArith List Lia Bool.
 From RtcmModel Require Import Types BitIO Layout Crc Frame Message Top.
 From RtcmGen Require Import GenSignals GenLayouts.
-From RtcmProofs Require Import ListZ FrameProofs BuilderProofs SizeProofs BuildProofs BitProofs FieldProofs RoundTrip RoundTripFrame EncodeTotal MsmTotal EncodeTotalAll.
+From RtcmProofs Require Import ListZ FrameProofs BuilderProofs SizeProofs BuildProofs BitProofs FieldProofs RoundTrip RoundTripFrame EncodeTotal MsmTotal EncodeTotalAll EncodeFrameAll.
 From RtcmGen Require Import GenMessages.
 Import ListNotations.
 Open Scope Z_scope.
@@ -170,6 +171,38 @@ Check C09_build_total : forall b m,
   (forall n v, m = MTyped n v -> exists lay, lookup n messages = Some lay /\ wt_msg lay v) ->
   snd (t_build b m) <> Panic.
 
+(** every layout: the encoder moves the cursor forward, keeps the buffer a byte buffer of the same length and
+    touches no bit before its starting position *)
+Theorem C09_encoder_framed : forall n lay, In (n, lay) messages -> framed (t_encode_frag lay).
+Proof.
+  intros n lay Hin.
+  pose proof C09_layouts_classified as Hc. rewrite forallb_forall in Hc. specialize (Hc _ Hin). cbn [snd] in Hc.
+  destruct (plain lay) eqn:Hp.
+  - pose proof plain_counts_ok as Hk. rewrite forallb_forall in Hk. specialize (Hk _ Hin). cbn [snd] in Hk. rewrite Hp in Hk. cbn [negb orb] in Hk.
+    exact (plain_frame sig_table ssr_table_1059 ssr_table_1065 SAT_CAP_1059 SAT_CAP_1065 lay Hp Hk).
+  - cbn [orb] in Hc. exact (tail_frame sig_table ssr_table_1059 ssr_table_1065 SAT_CAP_1059 SAT_CAP_1065 lay Hc).
+Qed.
+
+(** ... hence every frame build_message returns carries the message's own number in its first 12 payload bits *)
+Theorem C09_number : forall b n v fr,
+  reach sig_table ssr_table_1059 ssr_table_1065 SAT_CAP_1059 SAT_CAP_1065 messages b ->
+  snd (t_build b (MTyped n v)) = Ok fr -> exists f, frame_new fr = Ok f /\ fr_number f = Some n.
+Proof.
+  intros b n v fr Hr H. unfold t_build in H.
+  rewrite (history_independent sig_table ssr_table_1059 ssr_table_1065 SAT_CAP_1059 SAT_CAP_1065 messages b (MTyped n v) Hr) in H.
+  unfold build_fresh, build in H. cbn [builder_new b_has_run b_data] in H. change (211 :: repeat 0 1028) with fresh_data in H.
+  destruct (build_on sig_table ssr_table_1059 ssr_table_1065 SAT_CAP_1059 SAT_CAP_1065 messages fresh_data (MTyped n v)) as [[fr0 d']|e|] eqn:E; cbn [snd] in H; try discriminate.
+  inversion H; subst fr0.
+  destruct (build_well_formed sig_table ssr_table_1059 ssr_table_1065 SAT_CAP_1059 SAT_CAP_1065 messages
+              (proj1 caps_nonneg) (proj2 caps_nonneg) layouts_fit (MTyped n v) fr d' E) as [n0 [v0 [lay [Em [Hlk _]]]]].
+  inversion Em; subst n0 v0.
+  exact (build_number sig_table ssr_table_1059 ssr_table_1065 SAT_CAP_1059 SAT_CAP_1065 messages
+           (proj1 caps_nonneg) (proj2 caps_nonneg) layouts_fit numbers_fit n v fr d' lay Hlk (C09_encoder_framed n lay (lookup_In messages n lay Hlk)) E).
+Qed.
+Check C09_number : forall b n v fr,
+  reach sig_table ssr_table_1059 ssr_table_1065 SAT_CAP_1059 SAT_CAP_1065 messages b ->
+  snd (t_build b (MTyped n v)) = Ok fr -> exists f, frame_new fr = Ok f /\ fr_number f = Some n.
+
 (** non-vacuity of [wt_tail]: an MSM4 message whose signal rows name a satellite that is not listed, one
     of them twice (refused with an error, not a panic), and the same with consistent rows (accepted) *)
 Definition msm4_hdr : list val := [VInt 1; VInt 2; VInt 0; VNone; VInt 0; VInt 0; VInt 0; VInt 0; VInt 0].
@@ -215,3 +248,5 @@ Print Assumptions C09_number_plain.
 Print Assumptions C09_layouts_classified.
 Print Assumptions C09_encode_no_panic.
 Print Assumptions C09_build_total.
+Print Assumptions C09_encoder_framed.
+Print Assumptions C09_number.
